@@ -27,7 +27,8 @@ def case_strategy(draw, name):
               aseed=draw(st.integers(0, 999)), seed=draw(st.integers(0, 10 ** 6)), nq=draw(st.integers(4, 24)),
               weights=draw(st.sampled_from(['none', 'none', 'array', 'list', 'int', 'uniform', 'scaled'])),
               wscale=draw(st.integers(-3, 3)), logtol=draw(st.floats(-5, -2, allow_nan=False)),
-              max_iter=draw(st.sampled_from([1, 3, 50, 400, 400])), satisfied=draw(st.integers(0, 7)) == 0)
+              max_iter=draw(st.sampled_from([1, 3, 50, 400, 400])), satisfied=draw(st.integers(0, 7)) == 0,
+              collapsed=draw(st.integers(0, 3)) == 0, ncollapsed=draw(st.integers(1, 6)))
 
 
 def check_c12(case, stats):
@@ -47,10 +48,15 @@ def check_c12(case, stats):
     params['n_constraints'] = case['nq']
     pn = C.Constraints(data.y).positive_negative_pairs(case['nq'], same_length=True, random_state=rstate)
     Q = data.X[np.column_stack(pn)]
+  if case.get('collapsed') and name == 'LSML':
+    # "all quadruplet sets": some constraints (a, a, c, d) - always satisfied, but they carry weight
+    Q = Q.copy()
+    for j in rs.choice(len(Q), size=min(case['ncollapsed'], len(Q) - 1), replace=False):
+      Q[j, 1] = Q[j, 0]
   vab = Q[:, 0] - Q[:, 1]
   vcd = Q[:, 2] - Q[:, 3]
-  if (np.linalg.norm(vab, axis=1) == 0).any() or (np.linalg.norm(vcd, axis=1) == 0).any():
-    raise Discard('collapsed pair inside a quadruplet')
+  if (np.linalg.norm(vcd, axis=1) == 0).any():
+    raise Discard('collapsed second pair inside a quadruplet (d(c,d) = 0 cannot be exceeded)')
   Pinv0 = E.prior_inverse(prior, d, Q, rstate)
   wp = np.linalg.eigvalsh((Pinv0 + Pinv0.T) / 2)
   if wp.min() <= 1e-10 * wp.max():
